@@ -40,6 +40,7 @@ structure Mon where
   expResolvedAt : List (Nat × Nat) := [] -- expect() calls: the time their future was resolved with a match
   expNested : List Nat := []            -- expect() calls resolved by an event whose activation is nested inside that of an earlier match
   lateAccepted : List (BId × EId) := []  -- dispatches accepted by a bus whose run loop had already exited (stopped / cancelled)
+  badYield : List IId := []             -- instances whose current await suspended while some queue held an event (C05 `notImmediate`)
   redone : List EId := []               -- events accepted by a bus again: after their completion had been signalled, or by a bus that had them before
   selAt : List ((BId × EId) × List HId) := []   -- per begun activation: the ordinary handlers registered for a matching
                                         -- pattern at that moment (what "no handler is skipped" is about)
@@ -277,9 +278,13 @@ def Mon.step (m : Mon) (w : World) (l : Label) (w' : World) : Mon × List Vio :=
   | .peRecTrip _ b e =>
     -- a trip the model does not compute (no handler of the bus recurs in the event's ancestry) is not finding F2:
     -- the accepted event is dropped before any of its handlers sees it
-    if recursionTrips w b e then ({ m with tripped := m.tripped ++ [(b, e)], ended := m.ended ++ [(b, e)] }, [])
+    -- either way an event that dispatch() accepted is taken from the queue and dropped without a handler having seen it and
+    -- without anything raised to the dispatcher (C14; the documented guard is finding F2)
+    if recursionTrips w b e then ({ m with tripped := m.tripped ++ [(b, e)], ended := m.ended ++ [(b, e)] },
+          v "C14" "droppedByGuard" ["F2"] s!"bus {b}: event {e} was accepted by dispatch() and is dropped by the recursion guard when it is taken for processing")
     else ({ m with ended := m.ended ++ [(b, e)] },
-          v "C01" "spuriousRecursionTrip" [] s!"bus {b}: the recursion guard raised for event {e} although none of its handlers recurs in the event's ancestry; no handler of the accepted event runs")
+          v "C01" "spuriousRecursionTrip" [] s!"bus {b}: the recursion guard raised for event {e} although none of its handlers recurs in the event's ancestry; no handler of the accepted event runs" ++
+          v "C14" "droppedByGuard" [] s!"bus {b}: event {e} was accepted by dispatch() and is dropped when it is taken for processing: the recursion guard raised although none of its handlers recurs in the event's ancestry")
   | .peAbort p b e =>
     -- C11: processing is abandoned only because its executor is being cancelled (a stop(), a cancelled run-loop task, a
     -- timeout further up). Abandoned without that, an exception of a handler has escaped process_event: the remaining
@@ -395,7 +400,7 @@ def Mon.step (m : Mon) (w : World) (l : Label) (w' : World) : Mon × List Vio :=
      (if !C13.bound w' b then v "C13" "bound" [] s!"bus {b} history {(w'.bus b).hist.length} after processing {e}" else []) ++
      (if (w.bus b).wal && (match w.act p with | some A => !A.walDone | none => true) then
         v "C17" "noWalLine" [] s!"bus {b} finished event {e} without attempting its WAL line" else []))
-  | .awaitBegin i _ => (m, late i)
+  | .awaitBegin i _ => ({ m with badYield := m.badYield.filter (· != i) }, late i)
   | .awaitEnd i c =>
     (m,
      -- an in-handler await does not give up on an event that is sitting in a queue: its polling passes take one event per
@@ -409,7 +414,9 @@ def Mon.step (m : Mon) (w : World) (l : Label) (w' : World) : Mon × List Vio :=
       else []) ++
      if !treeDone w c then
           v "C04" "incomplete"
-            ((if f1Sig w i c then ["F1"] else []) ++ (if parStealSig w i c then ["par-steal"] else []) ++
+            -- (F1 - the child was taken by its bus's run loop, which then waits for the lock - explains an await that looked
+            --  for the child first; not one that suspended while the child was still queued)
+            ((if f1Sig w i c && !m.badYield.contains i then ["F1"] else []) ++ (if parStealSig w i c then ["par-steal"] else []) ++
              (if (w.ev c).signal && f4Sig w c then ["F4"] else []) ++
              (if (w.ev c).signal && redoneSig w m.redone c then ["redispatch-done"] else []) ++
              (if (w.ev c).signal then [] else hangSigs w m c))
@@ -575,8 +582,11 @@ def Mon.step (m : Mon) (w : World) (l : Label) (w' : World) : Mon × List Vio :=
   let awaited : Option EId := match l with
     -- (the second disjunct cannot occur on a conforming history: an await that gives up has used up its polling passes)
     -- (... and an await that returns although its event is still sitting in a queue has not used them up on that event either)
+    -- (... nor has one that gives up on an event for which none of the recorded mechanisms accounts - the same list that
+    --  explains an incomplete return for C04)
     | .awaitEnd i c => if (w.ev c).signal || (w.inst i).iters < w.cfg.maxPoll ||
-                          (buses w).any (fun b => (w.bus b).queue.contains c) then some c else none
+                          (buses w).any (fun b => (w.bus b).queue.contains c) ||
+                          (!f1Sig w i c && !parStealSig w i c && (hangSigs w m c).isEmpty) then some c else none
     | .xAwaitEnd e => some e
     | _ => none
   let fresh := (events w').filterMap fun e =>
@@ -661,7 +671,10 @@ def Mon.step (m : Mon) (w : World) (l : Label) (w' : World) : Mon × List Vio :=
             detail := s!"instance {j}, run inside the await of instance {i}, still acts after the timeout / cancellation of instance {i} was recorded" }]
        | none => [])
     | none => []
-  ({ m with snaps := snaps ++ fresh, scanning := scanning }, vs ++ changed ++ scanV ++ yieldV ++ zombieV ++ orphanV)
+  let badYield := match l with
+    | .pollYield i => if yieldV.isEmpty then m.badYield else m.badYield ++ [i]
+    | _ => m.badYield
+  ({ m with snaps := snaps ++ fresh, scanning := scanning, badYield := badYield }, vs ++ changed ++ scanV ++ yieldV ++ zombieV ++ orphanV)
 
 /-- is the model quiescent: nothing queued on a live bus, nothing in hand, no open activation, no live instance -/
 def isRest (w : World) : Bool :=
